@@ -93,12 +93,13 @@ def execute(module_name, sub, case):
   import importlib
   mod = importlib.import_module(module_name)
   fn = mod.SUBS[sub]
+  timeout_s = min(CASE_TIMEOUT_S, getattr(mod, 'TIMEOUTS', {}).get(sub, CASE_TIMEOUT_S))
   rec = {'sub': sub, 'case': case, 'status': 'ok', 'info': None}
   old = None
   use_alarm = hasattr(signal, 'SIGALRM') and _in_main_thread()
   if use_alarm:
     old = signal.signal(signal.SIGALRM, _alarm)
-    signal.alarm(CASE_TIMEOUT_S)
+    signal.alarm(timeout_s)
   try:
     info = fn(case)
     rec['info'] = info or {}
@@ -106,8 +107,8 @@ def execute(module_name, sub, case):
     rec.update(status='violation', msg=v.msg, expected=jsonable(v.expected),
                observed=jsonable(v.observed), min_case=v.case)
   except _Timeout:
-    rec.update(status='violation', msg=f'execution did not terminate within {CASE_TIMEOUT_S}s',
-               expected='termination', observed='timeout', min_case=None)
+    rec.update(status='violation', msg=f'execution did not terminate within {timeout_s}s',
+               expected='termination', observed='timeout', min_case=None, timed_out=True)
   except HarnessError as e:
     rec.update(status='harness', msg=str(e) + '\n' + traceback.format_exc())
   except Exception as e:  # pylint: disable=broad-except
@@ -158,6 +159,7 @@ class Ctx:
     self.extra = {}
     self.rule = ''
     self._determinism_done = set()
+    self._timeouts = {}
     self._pool = None
     self._pool_workers = 0
     self.known = [k for k in load_known() if k.get('property') == prop and k.get('status') == 'known']
@@ -167,6 +169,9 @@ class Ctx:
   def run(self, sub, cases):
     """In-process execution of an iterable of cases."""
     for case in cases:
+      if self._timeouts.get(sub, 0) >= 2:
+        self.caps.append({'sub': sub, 'cap': 'sub-space abandoned after 2 non-terminating executions'})
+        break
       if sub not in self._determinism_done:
         self._determinism_done.add(sub)
         self._determinism(sub, case)
@@ -214,6 +219,8 @@ class Ctx:
 
   def _determinism(self, sub, case):
     a = execute(self.module_name, sub, case)
+    if a.get('timed_out'):
+      return
     b = execute(self.module_name, sub, case)
     ka = (a['status'], digest(a.get('info', {}) and a['info'].get('outcome')), a.get('msg'))
     kb = (b['status'], digest(b.get('info', {}) and b['info'].get('outcome')), b.get('msg'))
@@ -229,6 +236,8 @@ class Ctx:
     if rec['status'] == 'harness':
       raise HarnessError(rec['msg'])
     if rec['status'] == 'violation':
+      if rec.get('timed_out'):
+        self._timeouts[sub] = self._timeouts.get(sub, 0) + 1
       sp['evaluations'] += 1
       self.evaluations += 1
       self._violation(rec)
